@@ -11,7 +11,7 @@ use metrique_writer::stream::EntryIoStreamExt;
 use metrique_writer::test_util::TestFlagCtor;
 use metrique_writer_core::entry::{EmptyEntry, SampleGroupElement};
 use metrique_writer_core::unit::{NegativeScale, PositiveScale};
-use metrique_writer_core::value::{FlagConstructor, ForceFlag, MetricOptions, WithDimensions};
+use metrique_writer_core::value::{FlagConstructor, ForceFlag, FormattedValue, MetricOptions, NotLifted, ValueFormatter, WithDimensions};
 use metrique_writer_core::{
     BoxEntry, Entry, EntryConfig, EntryIoStream, EntryWriter, IoStreamError, MetricFlags, Observation, Unit,
     ValidationError, Value, ValueWriter,
@@ -36,7 +36,7 @@ enum Obs { U(u64), F(u64), R(u64, u64) }
 #[derive(Clone, Debug, PartialEq)]
 enum VCall { None, Str(String), Err(Vec<String>), Metric { os: Vec<Obs>, unit: u32, dims: Dims, fl: Option<Flag> }, Panic }
 #[derive(Clone, Debug)]
-enum VTree { Plain(VCall), Cont(u8, Box<VTree>), OptNone, OptSome(Box<VTree>), WithDims(Box<VTree>, Dims), Force(Box<VTree>, Flag) }
+enum VTree { Plain(VCall), Cont(u8, Box<VTree>), OptNone, OptSome(Box<VTree>), WithDims(Box<VTree>, Dims), Force(Box<VTree>, Flag), Formatted(Vec<u8>, VCall), ToStr(String) }
 #[derive(Clone, Debug)]
 enum SItem { Ts(u64), Cfg(u32), Val(String, VTree, u8) }
 #[derive(Clone, Debug)]
@@ -77,6 +77,8 @@ fn enc_vtree(v: &VTree) -> Sx {
         VTree::OptSome(v) => sx::tag(3, vec![enc_vtree(v)]),
         VTree::WithDims(v, d) => sx::tag(4, vec![enc_vtree(v), enc_dims(d)]),
         VTree::Force(v, f) => sx::tag(5, vec![enc_vtree(v), enc_flag(f)]),
+        VTree::Formatted(ls, c) => sx::tag(8, vec![Sx::L(ls.iter().map(|k| sx::n(*k)).collect()), enc_vcall(c)]),
+        VTree::ToStr(st) => sx::tag(9, vec![sx::b(st)]),
     }
 }
 fn enc_sitem(i: &SItem) -> Sx {
@@ -144,7 +146,9 @@ fn dec_vtree(x: &Sx) -> VTree {
         2 => VTree::OptNone,
         3 => VTree::OptSome(Box::new(dec_vtree(x.arg(0)))),
         4 => VTree::WithDims(Box::new(dec_vtree(x.arg(0))), dec_dims(x.arg(1))),
-        _ => VTree::Force(Box::new(dec_vtree(x.arg(0))), dec_flag(x.arg(1))),
+        5 => VTree::Force(Box::new(dec_vtree(x.arg(0))), dec_flag(x.arg(1))),
+        8 => VTree::Formatted(x.arg(0).list().iter().map(|k| k.num() as u8).collect(), dec_vcall(x.arg(1))),
+        _ => VTree::ToStr(st(x.arg(0))),
     }
 }
 fn dec_sitem(x: &Sx) -> SItem {
@@ -315,19 +319,55 @@ type VTop = VS<VS<VZ>>;
 const VDEPTH: usize = 2;
 /// A user value given as a static chain of wrappers over a scripted call (or over `None::<PV>`).
 #[derive(Clone, Debug)]
-struct RV { leaf: Option<PV>, ws: Vec<VWr> }
+enum Leaf { Plain(PV), None, Formatted(Vec<u8>, PV), ToStr(String) }
+#[derive(Clone, Debug)]
+struct RV { leaf: Leaf, ws: Vec<VWr> }
 impl Value for RV {
     fn write(&self, w: impl ValueWriter) {
-        match &self.leaf { Some(pv) => VTop::go(pv.clone(), &self.ws, w), None => VTop::go(None::<PV>, &self.ws, w) }
+        match &self.leaf {
+            Leaf::Plain(pv) => VTop::go(pv.clone(), &self.ws, w),
+            Leaf::None => VTop::go(None::<PV>, &self.ws, w),
+            // lifts are listed outermost first; the type is built from the base outwards
+            Leaf::Formatted(ls, pv) => { let inner: Vec<u8> = ls.iter().rev().copied().collect(); FTop::fgo(pv.clone(), &inner, w) }
+            Leaf::ToStr(st) => FormattedValue::<String, metrique_writer_core::value::ToString, NotLifted>::new(st).write(w),
+        }
     }
 }
+/// A user formatter for the scripted base type; lifted over &, Option, Box, Arc, Cow by the blanket impls.
+struct ScriptFmt;
+impl ValueFormatter<PV> for ScriptFmt { fn format_value(w: impl ValueWriter, v: &PV) { v.write(w) } }
+trait FDepth { fn fgo<T: Clone, W: ValueWriter>(t: T, ls: &[u8], w: W) where ScriptFmt: ValueFormatter<T>; }
+struct FZ;
+struct FS<D>(PhantomData<D>);
+impl FDepth for FZ {
+    fn fgo<T: Clone, W: ValueWriter>(t: T, ls: &[u8], w: W) where ScriptFmt: ValueFormatter<T> {
+        assert!(ls.is_empty(), "harness: formatter lifting deeper than the static limit");
+        FormattedValue::<T, ScriptFmt>::new(&t).write(w)
+    }
+}
+impl<D: FDepth> FDepth for FS<D> {
+    fn fgo<T: Clone, W: ValueWriter>(t: T, ls: &[u8], w: W) where ScriptFmt: ValueFormatter<T> {
+        let Some((k, rest)) = ls.split_first() else { return FormattedValue::<T, ScriptFmt>::new(&t).write(w) };
+        match k {
+            0 => D::fgo::<&T, W>(&t, rest, w),
+            1 => D::fgo::<Option<T>, W>(Some(t), rest, w),
+            2 => D::fgo::<Option<T>, W>(None, rest, w),
+            3 => D::fgo::<Box<T>, W>(Box::new(t), rest, w),
+            4 => D::fgo::<Arc<T>, W>(Arc::new(t), rest, w),
+            _ => D::fgo::<Cow<'_, T>, W>(Cow::Borrowed(&t), rest, w),
+        }
+    }
+}
+type FTop = FS<FS<FZ>>;
 fn flatten_v(v: &VTree) -> RV {
     let mut ws = vec![];
     let mut cur = v;
     loop {
         match cur {
-            VTree::Plain(c) => { ws.reverse(); return RV { leaf: Some(PV(c.clone())), ws }; }
-            VTree::OptNone => { ws.reverse(); return RV { leaf: None, ws }; }
+            VTree::Plain(c) => { ws.reverse(); return RV { leaf: Leaf::Plain(PV(c.clone())), ws }; }
+            VTree::OptNone => { ws.reverse(); return RV { leaf: Leaf::None, ws }; }
+            VTree::Formatted(ls, c) => { ws.reverse(); return RV { leaf: Leaf::Formatted(ls.clone(), PV(c.clone())), ws }; }
+            VTree::ToStr(st) => { ws.reverse(); return RV { leaf: Leaf::ToStr(st.clone()), ws }; }
             VTree::Cont(k, v) => { ws.push(VWr::Cont(*k)); cur = v; }
             VTree::OptSome(v) => { ws.push(VWr::Some); cur = v; }
             VTree::WithDims(v, d) => { ws.push(VWr::WithDims(d.clone())); cur = v; }
@@ -336,7 +376,12 @@ fn flatten_v(v: &VTree) -> RV {
     }
 }
 fn vdepth(v: &VTree) -> usize {
-    match v { VTree::Plain(_) => 0, VTree::OptNone => 1, VTree::Cont(_, v) | VTree::OptSome(v) | VTree::WithDims(v, _) | VTree::Force(v, _) => 1 + vdepth(v) }
+    match v {
+        VTree::Plain(_) => 0, VTree::OptNone => 1,
+        VTree::Cont(_, v) | VTree::OptSome(v) | VTree::WithDims(v, _) | VTree::Force(v, _) => match &**v { VTree::Formatted(..) | VTree::ToStr(_) => 99, _ => 1 + vdepth(v) },
+        VTree::Formatted(ls, _) => if ls.len() <= VDEPTH { 1 } else { 99 },
+        VTree::ToStr(_) => 1,
+    }
 }
 
 // ------------------------------------------------------------------------------------------- script entries
@@ -880,6 +925,10 @@ fn g_vwrap(rng: &mut Rng, family: u8, v: VTree) -> VTree {
 }
 fn g_vtree(rng: &mut Rng, family: u8, panics: bool, rich: bool) -> VTree {
     if !rich { return VTree::Plain(g_vcall(rng, family, panics)); }
+    if rng.chance(1, 8) {
+        return if rng.chance(1, 4) { VTree::ToStr(rng.pick(&STRS).to_string()) }
+               else { VTree::Formatted((0..rng.range(0, VDEPTH as u64)).map(|_| rng.below(6) as u8).collect(), g_vcall(rng, family, panics)) };
+    }
     let (mut v, mut d) = if rng.chance(1, 10) { (VTree::OptNone, 1) } else { (VTree::Plain(g_vcall(rng, family, panics)), 0) };
     let want = rng.range(0, VDEPTH as u64) as usize;
     while d < want { v = g_vwrap(rng, family, v); d += 1; }
@@ -1093,6 +1142,17 @@ pub fn run(ctx: &Ctx) {
             let t = ETree::Plain(script, vec![]);
             emit_entry(&mut out, &t, "exhaustive_value_chains");
             emit_entry(&mut out, &ETree::Boxed(Box::new(t)), "exhaustive_value_chains");
+        }
+    }
+    {
+        let mut lifts: Vec<Vec<u8>> = vec![vec![]];
+        for a in 0..6u8 { lifts.push(vec![a]); for b in 0..6u8 { lifts.push(vec![a, b]); } }
+        for ls in lifts {
+            for c in [rep_metric(Some(Flag::Emf(1))), VCall::Str("formatted".into())] {
+                let t = ETree::Plain(vec![SItem::Val("f".into(), VTree::Formatted(ls.clone(), c), 0), SItem::Val("s".into(), VTree::ToStr("to string".into()), 1)], vec![]);
+                emit_entry(&mut out, &t, "exhaustive_formatter_liftings");
+                emit_entry(&mut out, &ETree::Boxed(Box::new(ETree::WithDims(Box::new(ETree::Boxed(Box::new(t))), rep_dims()))), "exhaustive_formatter_liftings");
+            }
         }
     }
     for f1 in &flags {
